@@ -293,6 +293,19 @@ class Runner:
         if pf is not None and pf.name == "oseq" and was_att:
             return  # the static type info of an optional sequence lists no node types: the swap is rejected (C19)
         exclude = {id(a) for a in w.ancestors_of(n)} | {id(x) for x in E.subtree(n)}
+        if cs % 5 == 4 and want is None:
+            # the replacement is a stale detached object whose *own* id is held by an attached look-alike (the
+            # object left behind by replace / replace_with): it takes over the receiver's id, so its old id does
+            # not matter; whatever the library does, the structural invariants checked after the step decide
+            stale = [x for x in w.held if x.detached and id(x) not in exclude and x is not n and not w.free_id(x.id)
+                     and all((w.attachable(k) if k.detached else k.parent is None) for k, _, _ in E.kids(x))]
+            if stale:
+                try:
+                    n.replace_with(stale[cs % len(stale)])
+                    self.lab.tag("replace_with-stale-replacement-carried-out")
+                except E.documented_errors():
+                    self.lab.tag("replace_with-stale-replacement-refused")
+                return
         ch = w.pick_children([cs], exclude, want)
         if not ch:
             return
